@@ -1078,3 +1078,45 @@ Lemma exact_check_scale_invariant_lemma :
   check_solve_right n (mscale s B) (vscale t x) (vscale (s * t) b) = check_solve_right n B x b /\
   check_solve_left n (mscale s B) (vscale t x) (vscale (s * t) b) = check_solve_left n B x b.
 Proof. intros. split. apply check_solve_right_scale_lemma; auto. apply check_solve_left_scale_lemma; auto. Qed.
+
+(* ---------- the update protocol ---------- *)
+Definition prep_current (s : pstate) : Prop := match p_prep s with Some (B, _) => B = p_mat s | None => True end.
+
+Lemma p_step_prep_current s o : prep_current s -> prep_current (p_step s o).
+Proof. destruct o; unfold prep_current; cbn; auto. Qed.
+
+Lemma p_run_prep_current : forall ops s, prep_current s -> prep_current (p_run s ops).
+Proof. induction ops as [|o ops IH]; intros s H; cbn; auto. apply IH. apply p_step_prep_current. exact H. Qed.
+
+(* whatever the history, a change that relies on the prepared vector gets the vector prepared for the CURRENT matrix *)
+Lemma change_uses_current_lemma : forall ops B0 o B v,
+  change_uses (p_run {| p_mat := B0; p_prep := None |} ops) o = Some (B, v) ->
+  B = p_mat (p_run {| p_mat := B0; p_prep := None |} ops).
+Proof.
+  intros ops B0 o B v H. pose proof (p_run_prep_current ops {| p_mat := B0; p_prep := None |} I) as P.
+  unfold prep_current in P. destruct o as [| | |k w e]; cbn in H; try discriminate. destruct e; try discriminate.
+  rewrite H in P. exact P.
+Qed.
+
+(* the protocol state follows the matrix of the specification state machine *)
+Definition p_erase (o : p_op) : list lu_op :=
+  match o with PLoad B => [OpLoad B] | PChange k v _ => [OpChange k v] | _ => [] end.
+
+Lemma p_run_matrix_lemma : forall ops s, p_mat (p_run s ops) = lu_run (p_mat s) (flat_map p_erase ops).
+Proof.
+  induction ops as [|o ops IH]; intros s; [reflexivity|].
+  change (p_run s (o :: ops)) with (p_run (p_step s o) ops). rewrite IH. unfold lu_run.
+  cbn [flat_map]. rewrite fold_left_app. destruct o; cbn; reflexivity.
+Qed.
+
+Lemma usetup_after_lemma s o : usetup (p_step s o) = match o with PPrep _ => true | PSolve => usetup s | _ => false end.
+Proof. destruct o; reflexivity. Qed.
+
+(* if load() kept the prepared vector, a later change would use a vector prepared for another matrix *)
+Lemma stale_load_refuted_lemma :
+  exists ops o B v, let s := fold_left p_step_stale ops {| p_mat := [[1; 0]; [0; 1]]; p_prep := None |} in
+    change_uses s o = Some (B, v) /\ B <> p_mat s.
+Proof.
+  exists [PPrep [1; 1]; PLoad [[2; 0]; [0; 1]]], (PChange 0 [3; 1] false), [[1; 0]; [0; 1]], [1; 1].
+  cbn. split; [reflexivity | discriminate].
+Qed.
